@@ -22,11 +22,11 @@ func init() {
 var animTokens = []color.NRGBA{{0, 0, 0, 0}, {200, 100, 50, 255}, {60, 60, 250, 255}, {200, 100, 50, 128}, {9, 8, 7, 0}, {1, 250, 1, 77}}
 
 type animEncInput struct {
-	CW, CH     int
-	Pics       []*image.NRGBA
-	Durs       []int // milliseconds
-	Opts       animation.EncodeOptions
-	Origin     string
+	CW, CH int
+	Pics   []*image.NRGBA
+	Durs   []int // milliseconds
+	Opts   animation.EncodeOptions
+	Origin string
 }
 
 // replayable form of an input history
